@@ -208,11 +208,24 @@ static Value vecv(const VectorDouble& v)
 
 struct RunOut { int err; int ndir; std::vector<double> flat; Value full; bool symread; };
 
+static bool sameVec(const VectorDouble& a, const VectorDouble& b)
+{
+  if (a.size() != b.size()) return false;
+  for (size_t k = 0; k < a.size(); k++)
+    if (!(a[k] == b[k] || (std::isnan(a[k]) && std::isnan(b[k])))) return false;
+  return true;
+}
+
+// The result of a pair of variables is read through the vector accessors with (i, j), j <= i; the same
+// cell is then read again through the vector accessors with (j, i) and through the scalar accessors
+// getSw / getHh / getGg with (i, j) and (j, i).  A reading that is not bit-identical to the first one is
+// written out under "alt" and compared with the expectation like the first one.
 static RunOut observe(Vario* v, int nvar)
 {
   RunOut r; r.err = 0; r.symread = true;
   if (v == nullptr) { r.err = 1; r.ndir = 0; r.full = Value::array(); return r; }
   r.ndir = v->getDirectionNumber();
+  bool asym = v->getFlagAsym();
   Value dirs = Value::array();
   for (int d = 0; d < r.ndir; d++)
   {
@@ -222,20 +235,33 @@ static RunOut observe(Vario* v, int nvar)
       {
         VectorDouble sw = v->getSwVec(d, i, j, false), hh = v->getHhVec(d, i, j, false),
                      gg = v->getGgVec(d, i, j, false, false, false);
-        if (i != j)
-        {
-          VectorDouble sw2 = v->getSwVec(d, j, i, false), hh2 = v->getHhVec(d, j, i, false),
-                       gg2 = v->getGgVec(d, j, i, false, false, false);
-          auto same = [](const VectorDouble& a, const VectorDouble& b) {
-            if (a.size() != b.size()) return false;
-            for (size_t k = 0; k < a.size(); k++)
-              if (!(a[k] == b[k] || (std::isnan(a[k]) && std::isnan(b[k])))) return false;
-            return true;
-          };
-          if (!same(sw, sw2) || !same(hh, hh2) || !same(gg, gg2)) r.symread = false;
-        }
         Value o = Value::object();
         o["sw"] = vecv(sw); o["hh"] = vecv(hh); o["gg"] = vecv(gg);
+        Value alts = Value::array();
+        int nl = (int)sw.size();
+        for (int mode = 0; mode < 3; mode++)
+        {
+          if (mode != 1 && i == j) continue;       // 0: vectors (j,i)  1: scalars (i,j)  2: scalars (j,i)
+          int a = mode == 1 ? i : j, b = mode == 1 ? j : i;
+          VectorDouble sw2, hh2, gg2;
+          if (mode == 0)
+          {
+            sw2 = v->getSwVec(d, a, b, false); hh2 = v->getHhVec(d, a, b, false); gg2 = v->getGgVec(d, a, b, false, false, false);
+          }
+          else
+            for (int k = 0; k < nl; k++)
+            {
+              sw2.push_back(v->getSw(d, a, b, k)); hh2.push_back(v->getHh(d, a, b, k));
+              gg2.push_back(v->getGg(d, a, b, k, asym, false));
+            }
+          if (sameVec(sw, sw2) && sameVec(hh, hh2) && sameVec(gg, gg2)) continue;
+          r.symread = false;
+          Value al = Value::object();
+          al["via"] = Value(mode == 0 ? "vec_ji" : mode == 1 ? "get_ij" : "get_ji");
+          al["sw"] = vecv(sw2); al["hh"] = vecv(hh2); al["gg"] = vecv(gg2);
+          alts.push(al);
+        }
+        if (alts.size() > 0) o["alt"] = alts;
         vps.push(o);
         for (double x : sw) r.flat.push_back(x);
         for (double x : hh) r.flat.push_back(x);
@@ -249,7 +275,7 @@ static RunOut observe(Vario* v, int nvar)
 
 static bool bitSame(const RunOut& a, const RunOut& b)
 {
-  if (a.err != b.err || a.ndir != b.ndir || a.flat.size() != b.flat.size() || a.symread != b.symread) return false;
+  if (a.err != b.err || a.ndir != b.ndir || a.flat.size() != b.flat.size() || !a.symread || !b.symread) return false;
   for (size_t k = 0; k < a.flat.size(); k++)
   {
     double x = a.flat[k], y = b.flat[k];
